@@ -250,7 +250,7 @@ func (s *Solver) Assert(t *Term) {
 // direct reports whether a query should skip the incremental solver: z3's
 // incremental core is very slow on floating-point obligations.
 func (s *Solver) direct(extra *Term) bool {
-	return extra != nil && extra.fp
+	return (extra != nil && extra.fp) || s.pcFP
 }
 
 func (s *Solver) sendDecl(cmd string) { s.send(cmd) }
